@@ -142,6 +142,7 @@ def plainOK (kind code : Nat) (ct text : Bytes) (status : Nat) (ctype body : Byt
   status == code && body == text &&
   ctype == (if kind == 0 then bstr "text/plain" else if kind == 1 then bstr "text/html"
             else if kind == 2 then (if ct == [] then bstr "application/octet-stream" else ct)
+            else if kind == 5 then ct   -- DataFromReader (5): everything the reader delivers, the content type as given
             else [])   -- SendStatus (3): `text` is the standard status text; NoContent (4): code 204, no body
 
 /-- documented response of `Format` for one representation: JSON as `JSON` sends it, `<p>…</p>` as
@@ -165,6 +166,12 @@ def formatOK (admissible : Bytes → Bool) (code : Nat) (vtext : Bytes) (encOK :
     (obs : Option (Nat × Bytes × Bytes × Bool)) : Bool :=
   ["json", "html", "xml", "txt", ""].any fun f =>
     admissible (bstr f) && formatShape (if f == "" then "txt" else f) code vtext encOK enc obs
+
+/-- SetCookie then GetCookie (documented: "sets a cookie with the given name and value", "the value is
+    automatically URL-unescaped"): when the cookie line was emitted, the value read back from it on the
+    next request is the value that was set -/
+def cookieRoundTripOK (emitted : Bool) (value : Bytes) (readBack : List Bytes) : Bool :=
+  !emitted || readBack == [value]
 
 /-- no CR, no LF -/
 def noCRLF (v : Bytes) : Bool := v.all (fun c => c != '\r' && c != '\n')
